@@ -51,6 +51,16 @@ SPECS = [
          ],
          raises={'*': {'ensures': ["raised('e1') or raised('e2')"]}},
          serves=['C06', 'C02', 'C04']),
+    dict(id='S-Interp-percent',
+         # "everything else is copied": a literal % next to an interpolation is not a format directive
+         text='A<p t="${e1} 100% %s">x ${e2}%d %</p>B',
+         ensures=[
+             "trace('e1', 'e2')",
+             "S() == S0() + 'A<p t=\"' + ('' if quoted(val(1), '\"', '&quot;', None, DEFAULT()) is None else piece(quoted(val(1), '\"', '&quot;', None, DEFAULT()))) + ' 100% %s\">x ' + "
+             "('' if quoted(val(2), '\\0', '&#0;', None, None) is None else piece(quoted(val(2), '\\0', '&#0;', None, None))) + '%d %</p>B'",
+         ],
+         raises={'*': {'ensures': ["raised('e1') or raised('e2')"]}},
+         serves=['C06', 'C20']),
     dict(id='S-Interp-lines',
          # line/column in the token table count '\n' only (as the tokenizer, Token.location and the
          # error formatter's source excerpt do): no other "line boundary" character starts a line
